@@ -413,3 +413,61 @@ Example C17_example_tls :
   tls_upstream_case (o false false false false) (Some CSysRootWrongName) = false /\
   tls_listener_case (o true true false true) (Some CSysRoot) = false.
 Proof. vm_compute. repeat split. Qed.
+
+(* --- the HTTP Host / :authority of a DoH upstream (round 4) ----------------------------------------------- *)
+(* For EVERY spelling of every scheme x EVERY address of the grammar — IPv4, domain, bracketed IPv6 literal of any
+   shape, port absent or ANY port of 1..5 digits (the scheme's default port written out included: wf_port "443",
+   see C17_host_default_port_kept) — x ANY dial_addr: the HTTP Host (HTTP/1.1 Host header, h2 / h3 :authority) of
+   a DoH upstream (http, https, h3) is the URL authority exactly as written in the configuration, brackets and
+   port included; the other transports have none.  The TLS server name is the bare host. *)
+Theorem C17_http_host_is_authority : forall st k h p path d,
+  scheme_spelling st k -> wf_path path = true -> wf_host h = true -> wf_port_opt p = true ->
+  let sc := fst (fst k) in
+  exists ep, endpoint_of (url_of (Some st) h p path) d = Ok ep /\
+    ep_host ep = (if uses_http sc then Some (authority h p) else None) /\
+    ep_sni ep = (if uses_tls sc then Some (host_name h) else None).
+Proof. exact http_host_any. Qed.
+Print Assumptions C17_http_host_is_authority.
+
+(* the scheme's default port, when written out, stays in the Host: "[v6]:443" is never shortened to "[v6]" or "v6" *)
+Theorem C17_host_default_port_kept : forall st k h path d,
+  scheme_spelling st k -> uses_http (fst (fst k)) = true -> wf_path path = true -> wf_host h = true ->
+  let sc := fst (fst k) in
+  wf_port_opt (Some (default_port sc)) = true /\
+  exists ep, endpoint_of (url_of (Some st) h (Some (default_port sc)) path) d = Ok ep /\
+    ep_host ep = Some (host_text h ++ ch_colon :: default_port sc).
+Proof.
+  intros st k h path d Hs Hh Wp W sc. split; [exact (default_port_wf sc)|].
+  exact (http_host_default_port st k h path d Hs Hh Wp W).
+Qed.
+Print Assumptions C17_host_default_port_kept.
+
+(* the same through the router: the upstream initUpstream builds from a config entry *)
+Theorem C17_upstream_http_host : forall st k h p path tag da o,
+  scheme_spelling st k -> wf_path path = true -> wf_host h = true -> wf_port_opt p = true ->
+  tag <> [] -> (o_verify_client o = true -> o_ca o = true) ->
+  let sc := fst (fst k) in
+  exists u,
+    upc_init_upstream {| upc_tag := tag; upc_addr := url_of (Some st) h p path; upc_dial_addr := da; upc_tls := o |} = Ok u /\
+    ep_host (uu_ep u) = (if uses_http sc then Some (authority h p) else None).
+Proof. exact upc_http_host. Qed.
+Print Assumptions C17_upstream_http_host.
+
+(* the IPv6 literal with the default port written out is an instance of the grammar, and its Host keeps both *)
+Example C17_example_host_default_port :
+  wf_host (HV6 (s2l "2001:db8::53")) = true /\ wf_port_opt (Some (s2l "443")) = true /\
+  url_of (Some (s2l "https")) (HV6 (s2l "2001:db8::53")) (Some (s2l "443")) (s2l "/dns-query") =
+    s2l "https://[2001:db8::53]:443/dns-query" /\
+  show (endpoint_of (s2l "https://[2001:db8::53]:443/dns-query") (s2l "127.0.0.1:8443")) =
+    Some (NTcp, s2l "127.0.0.1:8443", Some (s2l "2001:db8::53"), Some (s2l "[2001:db8::53]:443")) /\
+  show (endpoint_of (s2l "http://[::1]:80/dns-query") []) =
+    Some (NTcp, s2l "[::1]:80", None, Some (s2l "[::1]:80")) /\
+  show (endpoint_of (s2l "H3://[2001:db8::53]:443/dns-query") []) =
+    Some (NUdp, s2l "[2001:db8::53]:443", Some (s2l "2001:db8::53"), Some (s2l "[2001:db8::53]:443")) /\
+  show (endpoint_of (s2l "https://[2001:db8::53]/dns-query") []) =
+    Some (NTcp, s2l "[2001:db8::53]:443", Some (s2l "2001:db8::53"), Some (s2l "[2001:db8::53]")) /\
+  show (endpoint_of (s2l "https://dns.example:443/dns-query") []) =
+    Some (NTcp, s2l "dns.example:443", Some (s2l "dns.example"), Some (s2l "dns.example:443")) /\
+  show (endpoint_of (s2l "tls://[2001:db8::53]:853") []) =
+    Some (NTcp, s2l "[2001:db8::53]:853", Some (s2l "2001:db8::53"), None).
+Proof. vm_compute. repeat split. Qed.
